@@ -492,3 +492,31 @@ Proof.
   revert R. match goal with |- match ?k with _ => _ end -> _ => let v := eval vm_compute in k in change k with v end. cbv iota.
   intro R. exact R.
 Qed.
+
+(* 18. a malformed string list in the arguments of a test: `if header ["a" "b"] "x" { }` (missing comma) *)
+Example ex_malformed_list_in_test :
+  parse gen_tables (bs (px_text ++ "if header [""a"" ""b""] ""x"" { } }")) = Reject EExpected 61 3.
+Proof.
+  set (text := bs (px_text ++ "if header [""a"" ""b""] ""x"" { } }")).
+  let toks := eval vm_compute in (fst (lex text)) in
+  let p := eval vm_compute in (firstn 10 toks) in
+  let r := eval vm_compute in (skipn 10 toks) in
+  match r with
+  | ?tn :: ?tl :: ?lb :: ?i1 :: ?t :: ?rest =>
+      let gd := eval vm_compute in (get_command_instance gen_tables [bs "fileinto"] (t_val tn)) in
+      let gl := eval vm_compute in (get_command_instance gen_tables [bs "fileinto"] (t_val tl)) in
+      match gd with
+      | inl ?d =>
+          match gl with
+          | inl ?dl =>
+              let aa := eval vm_compute in (hd (mkArg [] [] false None None None None) (d_args d)) in
+              exact (malformed_string_list_in_test_rejected gen_tables gen_twf text p tn tl [] lb [i1] t rest [bs "fileinto"] None 1
+                       d aa dl [] _ [q "a"] false
+                       px_wf ltac:(vm_compute; reflexivity) eq_refl ltac:(vm_compute; reflexivity) eq_refl eq_refl eq_refl eq_refl
+                       eq_refl ltac:(vm_compute; reflexivity) eq_refl eq_refl ltac:(vm_compute; reflexivity) (Forall_nil _) eq_refl eq_refl
+                       ltac:(vm_compute; reflexivity) eq_refl ltac:(vm_compute; reflexivity) ltac:(repeat constructor)
+                       ltac:(intro; discriminate) eq_refl eq_refl)
+          end
+      end
+  end.
+Qed.
